@@ -49,7 +49,7 @@ CHECKS = [
   "planted entropy value, per-letter case flips, passphrases, account index or explicit path, 0..64 workers, plant position 0..12, random/sticky/PCT-like "
   "and stall-at-publish policies; one search in sixty is deep: plant at draw 50..70 with a non-matching aftermath). Oracle: exit 0 => one line, a reference-valid phrase of the requested length whose reference-derived address for the selected account starts "
   "with the requested digits and whose entropy was really delivered; valid arguments and no injected failure => exit 0; non-hex prefix refused; bounded "
-  "liveness after the device turns generous (384+96*workers further requests); no deadlock; a non-hex prefix is refused (printing a phrase or starting a search both count as acceptance). One threaded scenario in six runs on the real binary under the shim's scheduler (E3). Failures are replayed from an explicit minimised choice trace. Sampling, not proof.",
+  "liveness after the device turns generous (384+32*workers further requests); no deadlock; a non-hex prefix is refused (printing a phrase or starting a search both count as acceptance). One threaded scenario in six runs on the real binary under the shim's scheduler (E3). Failures are replayed from an explicit minimised choice trace. Sampling, not proof.",
   "DESIGN.md §5.2",
   "Decided by simulation: independence of the result from which worker finishes first and from the interleaving of entropy delivery and channel operations. "
   "The prefix parsing/comparison clauses for a fixed schedule are input properties sampled by the same workload. Trusted: reference wallet (RustCrypto), shuttle models; "
@@ -59,7 +59,7 @@ CHECKS = [
  ("C17", "exploration",
   "Two halves. (i) Decided by schedule/fault search (E2): `new` with 0..64 workers x argument tuples that make key derivation fail or die inside a worker, "
   "entropy failures at every early position, all scheduler policies; invariant: no task panics, no deadlock before exit (a dead worker is modelled as thread "
-  "death, so 'all workers died' shows up as the main thread blocked for ever), exit within 384+96*workers further entropy requests once the device is generous; every such verdict of E2 is confirmed on the real binary under E3 before it is reported. 56 enumerated legacy transactions sit at the EIP-155 v-overflow limit +-3. "
+  "death, so 'all workers died' shows up as the main thread blocked for ever), exit within 384+32*workers further entropy requests once the device is generous; every such verdict of E2 is confirmed on the real binary under E3 before it is reported. 56 enumerated legacy transactions sit at the EIP-155 v-overflow limit +-3. "
   "(ii) Sampled by the workload (E1, real binary): boundary-biased and mutated-valid inputs for every user-reachable parser; invariant: exit status is not 101 (panic), "
   "no signal, termination within 10 s (a timeout is re-run alone before it is believed). Half (ii) is input generation run by the simulator, not a decision by simulation. Sampling, not proof.",
   "DESIGN.md §5.3",
